@@ -62,6 +62,25 @@ pub fn must(l: &mut Ledger, ixs: Vec<Ix>, what: &str) -> TxOutcome {
     o
 }
 
+thread_local! {
+    /// setup steps that the program refused although the world builder considers them valid (reported as observations)
+    pub static GENESIS_NOTES: std::cell::RefCell<Vec<String>> = const { std::cell::RefCell::new(Vec::new()) };
+}
+
+/// like `must`, for optional parts of a world: a refusal is recorded and the builder carries on without that part
+pub fn attempt(l: &mut Ledger, ixs: Vec<Ix>, what: &str) -> bool {
+    let mut f = l.clone();
+    let o = run(&mut f, ixs);
+    if o.ok {
+        *l = f;
+        true
+    } else {
+        let code = o.ix_outcomes.last().map(|x| x.code).unwrap_or(0);
+        GENESIS_NOTES.with(|g| g.borrow_mut().push(format!("genesis_step_refused:{}:{:#x}", what, code)));
+        false
+    }
+}
+
 pub fn rent_min(len: usize) -> u64 {
     rt::with_ctx(|c| c.rent).minimum_balance(len)
 }
